@@ -232,7 +232,8 @@ def s2(ctx, rep):
             ok = isinstance(src, ast.Call) and fn_name(src) == "compute_epsilon_net" and f"[{front[0]}]" in U(src.args[0])
     rep.put(ok, "S2", "agreement", "nondominated_sort: within-layer order is a permutation computed on that layer", f, None, "")
     # the loop runs while rows remain
-    ok = rem is not None and (f"{rem}.size > 0" in U(loops[0].test) or f"len({rem})" in U(loops[0].test))
+    from ..kinds import parity as _par
+    ok = rem is not None and any(f"{rem}.size > 0" in t_ or f"len({rem})" in t_ for t_ in _par.both_texts(loops[0].test))
     rep.put(ok, "S2", "agreement", "nondominated_sort: loops until no row remains (or max_items)", f, loops[0], U(loops[0].test))
 
 
@@ -338,9 +339,8 @@ def s4(ctx, rep):
     ok = len(dc) == 1
     if ok:
         ie = dc[0].value
-        t = U(ie.test)
-        ok = (t.endswith("== 'min'") and U(ie.body) in ("1", "1.0") and U(ie.orelse) in ("-1", "-1.0")) or \
-             (t.endswith("== 'max'") and U(ie.body) in ("-1", "-1.0") and U(ie.orelse) in ("1", "1.0"))
+        from ..kinds import parity
+        ok = parity.is_sign(ie) == 1       # +1 under 'min', -1 under 'max', however the test is written
         g = dc[0].generators[0]
         ok = ok and isinstance(g.iter, ast.Call) and fn_name(g.iter) == "zip" and len(g.iter.args) == 2
     rep.put(ok, "S4", "agreement", "MOASHA.__init__: per-metric sign +1 for min, -1 for max, zipped with the metric names", init,
